@@ -55,6 +55,56 @@ def components_used(expr):
     return out
 
 
+def symmetric_component_uses(events):
+    """ids of the subscript nodes that pick one Cartesian component each inside ONE chain of a commutative operator (a * b * c or
+    a + b + c) where the three operands are the same subscript up to that constant and the constants are 0, 1, 2."""
+    out = set()
+    by_func = {}
+    for g, node, comp in events:
+        by_func.setdefault(g, []).append((node, comp))
+    for g, evs in by_func.items():
+        parent = {}
+        for n in ast.walk(g.node):
+            for ch in ast.iter_child_nodes(n):
+                parent[id(ch)] = n
+
+        def chain_root(n):
+            p_ = parent.get(id(n))
+            if not isinstance(p_, ast.BinOp) or not isinstance(p_.op, (ast.Mult, ast.Add)):
+                return None, None
+            op = type(p_.op)
+            root = p_
+            while isinstance(parent.get(id(root)), ast.BinOp) and isinstance(parent[id(root)].op, op):
+                root = parent[id(root)]
+            return root, op
+
+        groups = {}
+        for node, comp in evs:
+            root, op = chain_root(node)
+            if root is not None:
+                groups.setdefault(id(root), []).append((node, comp))
+        for members in groups.values():
+            uniq = {id(n): (n, c_) for n, c_ in members}
+            if len(uniq) != 3 or sorted(c_ for _n, c_ in uniq.values()) != [0, 1, 2]:
+                continue
+
+            def skeletons(n, c_):
+                sl = n.slice
+                elts = list(sl.elts) if isinstance(sl, ast.Tuple) else [sl]
+                res = set()
+                for k, e in enumerate(elts):
+                    if isinstance(e, ast.Constant) and e.value == c_:
+                        res.add((k, ast.dump(n.value) + "|" + "|".join("#" if j == k else ast.dump(x) for j, x in enumerate(elts))))
+                return res
+            common = None
+            for n, c_ in uniq.values():
+                sk = skeletons(n, c_)
+                common = sk if common is None else common & sk
+            if common:
+                out |= set(uniq)
+    return out
+
+
 def run(repo, R):
     R.rule("PITFALL", "no approximate comparison of centre coordinates selects between formulas (tolerances relative to the coordinate break translation invariance)")
     from ..pitfalls import report as _pitfalls
@@ -164,7 +214,11 @@ def run(repo, R):
     for name, f, ex in runs:
         if ex is None:
             continue
+        evs = [(g, node, comp) for kind, g, node, comp in ex.shared.get("events", []) if kind == "xyz-const" and g.name in sep_funcs]
+        symmetric = symmetric_component_uses(evs)
         for kind, g, node, comp in ex.shared.get("events", []):
+            if kind == "xyz-const" and g.name in sep_funcs and id(node) in symmetric:
+                continue  # x, y and z are each picked once, identically, in one product / sum: the same as reducing over the component axis
             if kind == "xyz-const" and g.name in sep_funcs and (g.qualname, node.lineno, node.col_offset) not in seen_ev:
                 seen_ev.add((g.qualname, node.lineno, node.col_offset))
                 R.fail("X0", g.site, ast.unparse(node)[:80], f"the separable kernel {g.name} singles out Cartesian component {comp}: `{ast.unparse(node)[:70]}`",
